@@ -131,10 +131,11 @@ fn run_case<G: AffineRepr>(env: &Env<G>, c: &Case) -> CaseOut {
         // large batches: 40 valid members in pool order repeated; the same with one invalid member inside
         let big: Vec<&Inst<G>> = (0..40).map(|i| &pool[i % pool.len()]).collect();
         batches.push(("large-all-valid[40]".into(), big.clone()));
-        let mut b2 = big.clone();
-        let pos = (c.seed % 40) as usize;
-        b2[pos] = &invalid[(c.seed % invalid.len() as u64) as usize];
-        batches.push((format!("large-one-invalid@{}", pos), b2));
+        for pos in [0usize, 15, 16, 31, 32, 33, 39, (c.seed % 40) as usize] {
+            let mut b2 = big.clone();
+            b2[pos] = &invalid[((c.seed as usize) + pos) % invalid.len()];
+            batches.push((format!("large-one-invalid@{}", pos), b2));
+        }
     }
     batches.push(("empty".into(), vec![]));
     // one invalid member at every position
@@ -201,6 +202,29 @@ fn run_case<G: AffineRepr>(env: &Env<G>, c: &Case) -> CaseOut {
                     forged_batches.push((format!("forged-ratio[{}|slots {},{}]", wn, si, sj), vec![i0, i0 + 1], slots));
                 }
             }
+            // weights that are a low-degree polynomial in the position (alpha + i, alpha + i^2, ...):
+            // shifts following finite differences cancel for every alpha
+            for (fname, coefs, slots) in [
+                ("second-difference@0,1,2", vec![1i64, -2, 1], vec![0usize, 1, 2]),
+                ("second-difference@1,2,3", vec![1, -2, 1], vec![1, 2, 3]),
+                ("second-difference@0,1,3", vec![2, -3, 1], vec![0, 1, 3]),
+                ("third-difference@0..3", vec![1, -3, 3, -1], vec![0, 1, 2, 3]),
+                ("third-difference@1..4", vec![-1, 3, -3, 1], vec![1, 2, 3, 4]),
+            ] {
+                let made: Vec<Option<Inst<G>>> = coefs.iter().map(|cf| mk(crate::sc::from_i64::<F<G>>(*cf) * d, format!("{}{:+}d", wn, cf))).collect();
+                if made.iter().all(|x| x.is_some()) {
+                    let i0 = forged_store.len();
+                    for x in made {
+                        forged_store.push(x.unwrap());
+                    }
+                    let width = slots.iter().max().unwrap() + 1;
+                    let mut pat = vec![usize::MAX; width];
+                    for (j, s) in slots.iter().enumerate() {
+                        pat[*s] = j;
+                    }
+                    forged_batches.push((format!("forged-{}[{}]", fname, wn), (0..coefs.len()).map(|j| i0 + j).collect(), pat));
+                }
+            }
             // geometric weights alpha_i = 2^i: shifts (2d at slot 0, -d at slot 1)
             if let (Some(p), Some(q)) = (mk(d + d, "+2d".into()), mk(-d, "-d".into())) {
                 let i0 = forged_store.len();
@@ -214,6 +238,25 @@ fn run_case<G: AffineRepr>(env: &Env<G>, c: &Case) -> CaseOut {
     for (name, idxs, slots) in &forged_batches {
         let b: Vec<&Inst<G>> = slots.iter().map(|s| if *s == usize::MAX { &pool[0] } else { &forged_store[idxs[*s]] }).collect();
         batches.push((name.clone(), b));
+    }
+    // the very same proof object (same reference) under its own statement and under a wrong one
+    {
+        let a = &pool[2];
+        if !a.vs.is_empty() {
+            let mut wrong = a.vs.clone();
+            wrong[0] = env.pc.B;
+            for order in 0..2 {
+                let items: Vec<(&Program, &[G], &R1CSProof<G>)> = if order == 0 { vec![(&a.prog, &a.vs[..], &a.proof), (&a.prog, &wrong[..], &a.proof)] } else { vec![(&a.prog, &wrong[..], &a.proof), (&a.prog, &a.vs[..], &a.proof), (&a.prog, &a.vs[..], &a.proof)] };
+                let single_wrong = crate::interp::cur::verify_program::<G>(&a.prog, &wrong, &a.proof, &env.pc, &env.bp).res;
+                let (rb, _) = batch_rng::<G>(env, &items, &env.bp, c.seed ^ 0x77);
+                o.evals += 1;
+                if single_wrong.is_err() && rb.is_ok() {
+                    o.violate("batch-vs-conjunction:same-proof-two-statements", format!("one proof object passed twice (order {}), once with its statement and once with a wrong commitment: the batch accepts although the wrong pairing is rejected on its own", order), json!({"program": a.prog}));
+                } else {
+                    o.count(&format!("same-proof-two-statements: conjunction={} batch={}", if single_wrong.is_ok() { "accept" } else { "reject" }, if rb.is_ok() { "accept" } else { "reject" }), 1);
+                }
+            }
+        }
     }
     // ---- run every batch against the conjunction of individual verdicts
     for (bi, (name, members)) in batches.iter().enumerate() {
